@@ -133,6 +133,18 @@ fn universe(tier: &str) -> Vec<Vec<u8>> {
             v.push(base[..l].to_vec());
         }
     }
+    // strings of 8..=24 bytes that differ from each other in TWO places of one 8-byte (16-byte) group, in opposite
+    // directions (a word-at-a-time comparison that lets the wrong byte decide), and in one byte by >= 0x80 at a group
+    // boundary (a comparison through a wrapped difference)
+    for w in [
+        &b"abcdefgh"[..], &b"abddefgg"[..], &b"abcdefghi"[..], &b"abddefggi"[..],
+        &b"abcdefghijklmnop"[..], &b"abcEefghijklZnop"[..],
+        &b"aaaaaaaaabcdefgh"[..], &b"aaaaaaaaabddefgg"[..],
+        &b"\x00\x00\x00\x00\x00\x00\x00\x00"[..], &b"\x80\x00\x00\x00\x00\x00\x00\x00"[..], &b"\x01\xff\xff\xff\xff\xff\xff\x00"[..],
+        &b"aaaaaaaa\x10aaaaaaa"[..], &b"aaaaaaaa\xf0aaaaaaa"[..],
+    ] {
+        v.push(w.to_vec());
+    }
     v
 }
 
@@ -716,11 +728,15 @@ fn c15_universe(tier: &str) -> Vec<Vec<u8>> {
     // uniform fills and fills with one odd byte, every length 1..=80 and block sizes beyond (word-at-a-time
     // formatters: an all-zero / all-ff word, a leading-zero nibble, one deviating byte per word)
     let mut flens: Vec<usize> = (1..=80).collect();
-    flens.extend([96usize, 128, 129, 256, 1024]);
+    flens.extend([96usize, 128, 129, 256, 1024, 32767, 32768, 65537]);
     for &n in &flens {
         for &f in &[0x00u8, 0x01, 0x0f, 0x10, 0x7f, 0x80, 0xff, b'a', b' ', b'\t'] {
+            // (runs of 32 KiB and more - formatters that print a run in one call with a computed width: 00, ff and a letter)
+            if n > 1024 && !(f == 0x00 || f == 0xff || f == b'a') {
+                continue;
+            }
             v.push(vec![f; n]);
-            if n >= 4 && (n <= 40 || tier == "thorough") {
+            if n >= 4 && (n <= 40 || (tier == "thorough" && n <= 1024)) {
                 for pos in [0, n / 2, n - 1] {
                     let mut s = vec![f; n];
                     s[pos] = 0xab;
@@ -891,7 +907,7 @@ fn serde_part(uni: &[Vec<u8>], tier: &str, rep: &mut Report) {
         if tier != "thorough" && x.len() == 2 && i % 5 != 0 {
             continue;
         }
-        if x.len() > 6000 && tier != "thorough" && x.len() != 16385 {
+        if x.len() > 6000 && (tier != "thorough" || x.len() > 20000) && x.len() != 16385 {
             continue;
         }
         let st: &'static [u8] = Box::leak(x.clone().into_boxed_slice());
@@ -930,4 +946,49 @@ fn serde_part(uni: &[Vec<u8>], tier: &str, rep: &mut Report) {
     for f in fails {
         rep.violate("C15", "serde", &format!("serde round trip failed: {}", f), "");
     }
+}
+
+/// C17, serde side: sequences longer than the 4096-element capacity cap of `visit_seq` with honest and lying length hints
+/// (a deserializer's size hint is user-controlled data). Wrong data would be allowed; the oracle is the allocator's:
+/// canaries, ledger, poison.
+#[cfg(feature = "serde")]
+pub fn run_c17_serde(parity_odd: bool, rep: &mut Report) {
+    use serde_test::{assert_de_tokens, Token};
+    use std::panic::{catch_unwind, AssertUnwindSafe};
+    let mut n = 0u64;
+    for len in [0usize, 5, 4095, 4096, 4097, 4100, 5000, 9000] {
+        let x: Vec<u8> = (0..len).map(|i| (i * 37 + 11) as u8).collect();
+        for hint in [Some(len), None, Some(0), Some(len.saturating_sub(1)), Some(len + 1), Some(4096), Some(4097), Some(len + 100_000), Some(usize::MAX)] {
+            for mutable in [false, true] {
+                let mut toks = vec![Token::Seq { len: hint }];
+                for &e in x.iter() {
+                    toks.push(Token::U8(e));
+                }
+                toks.push(Token::SeqEnd);
+                let what = format!("deserialize {} from a sequence of {} elements announcing {:?}", if mutable { "BytesMut" } else { "Bytes" }, len, hint);
+                oracle::sys::set_crash_note(&what);
+                let b = Bytes::copy_from_slice(&x);
+                let m = BytesMut::from(&x[..]);
+                oracle::begin_execution(parity_odd);
+                n += 1;
+                let r = oracle::subject(|| catch_unwind(AssertUnwindSafe(|| if mutable { assert_de_tokens(&m, &toks) } else { assert_de_tokens(&b, &toks) })));
+                let mem = oracle::take_violation().or_else(oracle::check_canaries);
+                let end = oracle::end_execution();
+                let mem = mem.or(end.corrupt).or_else(oracle::take_violation);
+                if let Some(v) = mem {
+                    rep.violate("C17", "serde-seq:memory", &format!("{}: {}", what, v), &format!("{{\"engine\":\"liar-serde\",\"case\":{}}}", oracle::report::jstr(&what)));
+                }
+                if let Err(e) = r {
+                    oracle::subject(|| drop(e));
+                    rep.violate("C15", "serde-seq:value", &format!("{}: the result is not the sequence", what), "");
+                }
+            }
+        }
+    }
+    rep.evaluations = n;
+    rep.states = n;
+    rep.transitions = n;
+    rep.traces = n;
+    rep.distinct_nontrivial = n;
+    rep.extra_num("sequences", n);
 }
